@@ -135,7 +135,19 @@ def run(ctx):
             ctx.count("distinct_nontrivial")
             ctx.count("paths", npaths)
             ctx.count("evaluations", nobs)
-    # managers whose exit answers an exception by raising a new one (bodies that can raise)
+    # managers whose exit functions go by other names (`__exit__ = close`, `__aexit__ = aclose`, an un-wrapped decorator)
+    for body in ps.programs(g3, 3 if ctx.tier == "quick" else 4, p["depth"]):
+        for kind in KINDS:
+            if not ps.kind_ok(body, kind) or not ps.nontrivial(body, kind):
+                continue
+            idx += 1
+            if not ctx.mine(idx):
+                continue
+            npaths, nobs = run_program(body, kind, ctx, make_observer, ns=ps.NS_ALIASED)
+            ctx.count("aliased_exit_programs")
+            ctx.count("distinct_nontrivial")
+            ctx.count("paths", npaths)
+            ctx.count("evaluations", nobs)
     for body in ps.programs(g3, 3 if ctx.tier == "quick" else 4, p["depth"]):
         if not ps.has(body, ("raise",)):
             continue
